@@ -35,6 +35,9 @@ type Solver struct {
 
 	// statistics
 	NQueries, NSat, NUnsat, NUnknown int
+	Tag                              string
+	ByTag                            map[string]int
+	TimeByTag                        map[string]time.Duration
 	Time                             time.Duration
 	Errors                           []string
 	timeoutMs                        int
@@ -237,6 +240,12 @@ func (s *Solver) Check() SatResult {
 		break
 	}
 	s.Time += time.Since(start)
+	if s.ByTag == nil {
+		s.ByTag = map[string]int{}
+		s.TimeByTag = map[string]time.Duration{}
+	}
+	s.ByTag[s.Tag]++
+	s.TimeByTag[s.Tag] += time.Since(start)
 	s.NQueries++
 	switch res {
 	case Sat:
